@@ -711,6 +711,57 @@ def _check_queries(res, stepno, op, K):
     res.observe(stepno, op, [got_used[:2], got_missing[:2]])
 
 
+def _walk_objs(comp, seen=None):
+    """All component objects of a tree in document order (C-level reads only), each as often as it is reachable."""
+    out = [comp]
+    for sub in comp.__dict__.get("subcomponents", []):
+        out += _walk_objs(sub)
+    return out
+
+
+def _actual_present(cal):
+    out = []
+    for x in _walk_objs(cal):
+        if (x.__dict__.get("name") or getattr(type(x), "name", None) or "").upper() == "VTIMEZONE":
+            raw = dict.get(x, "TZID")
+            out.append(None if raw is None else str(raw))
+    return out
+
+
+def _resync(res, stepno, K):
+    """Rebuild the model's shape from the tree after a completion: the property does not say where a VTIMEZONE is
+    put, so the model follows the tree (by object identity); objects the model has not seen become new nodes.
+    Returns the TZIDs of the VTIMEZONEs that are new."""
+    node_of = {id(o): _node(K.root, nid) for nid, o in K.objs.items()}
+    added = []
+    serial = [0]
+
+    def sync(node, depth=0):
+        obj = K.objs.get(node.id)
+        if obj is None or node.kind == "VTIMEZONE" or depth > 8:
+            return
+        kids = []
+        for sub in obj.__dict__.get("subcomponents", []):
+            n = node_of.get(id(sub))
+            if n is None:
+                if type(sub).__name__ != "Timezone" or dict.get(sub, "TZID") is None:
+                    res.violate("C18/add_missing_timezones/appended-non-timezone", stepno, repr(type(sub)))
+                    continue
+                new_id = 100000 + stepno * 100 + serial[0]
+                serial[0] += 1
+                tzid = str(dict.get(sub, "TZID"))
+                n = Node(new_id, "VTIMEZONE", tzid)
+                K.objs[new_id] = sub
+                node_of[id(sub)] = n
+                added.append(tzid)
+            kids.append(n)
+        node.children = kids
+        for c in kids:
+            sync(c, depth + 1)
+    sync(K.root)
+    return added
+
+
 def _amz(res, stepno, K, a):
     from datetime import date
     cal = K.obj
@@ -718,8 +769,6 @@ def _amz(res, stepno, K, a):
     present_before = m_present(K.root)
     missing_before = sorted(used - {p for p in present_before if p is not None})
     known = {t: _known(t) for t in missing_before}
-    subs_before = list(cal.subcomponents)
-    snap_before = snap_component(cal)
     kwargs = {}
     if a["window"]:
         wk = a.get("wkind", "date")
@@ -742,21 +791,8 @@ def _amz(res, stepno, K, a):
             why = "query-failed"
         res.violate(f"C18/add_missing_timezones/raised:{type(e).__name__}:{why}", stepno, repr(e)[:300])
         return
-    subs_after = list(cal.subcomponents)
-    n = len(subs_before)
-    if len(subs_after) < n or any(x is not y for x, y in zip(subs_before, subs_after[:n])):
-        res.violate("C18/add_missing_timezones/reordered-or-removed", stepno, "existing subcomponents changed")
-        return
-    appended = subs_after[n:]
-    snap_after = snap_component(cal)
-    if snap_after["props"] != snap_before["props"] or snap_after["subs"][:n] != snap_before["subs"]:
-        res.violate("C18/add_missing_timezones/mutated-existing", stepno, "existing content changed")
-    app_ids = []
-    for comp in appended:
-        if type(comp).__name__ != "Timezone" or "TZID" not in comp:
-            res.violate("C18/add_missing_timezones/appended-non-timezone", stepno, repr(type(comp)))
-            continue
-        app_ids.append(str(comp["TZID"]))
+    # what was added, wherever it was put (the model follows the tree's order)
+    app_ids = _resync(res, stepno, K)
     for t in missing_before:
         cnt = app_ids.count(t)
         if known[t]:
@@ -772,26 +808,24 @@ def _amz(res, stepno, K, a):
     extra = [t for t in app_ids if t not in missing_before]
     if extra:
         res.violate("C18/add_missing_timezones/added-not-missing", stepno, f"added {extra!r}")
-    # model update: appended VTIMEZONEs in their actual order
-    for i, t in enumerate(app_ids):
-        nid = 100000 + stepno * 100 + i
-        K.root.children.append(Node(nid, "VTIMEZONE", t))
-        K.objs[nid] = appended[i]
-    # exactly one VTIMEZONE per known used id (anywhere in the calendar)
-    present_after = m_present(K.root)
+    # exactly one VTIMEZONE per known used id, counted in the tree itself (anywhere in the calendar)
+    present_after = _actual_present(cal)
     for t in missing_before:
         if known[t] and present_after.count(t) != 1:
             res.violate("C18/add_missing_timezones/not-exactly-one", stepno, f"{t!r}: {present_after.count(t)}")
+    if sorted(map(str, present_after)) != sorted(map(str, m_present(K.root))):
+        res.violate("C18/add_missing_timezones/vtimezones-differ-from-model", stepno,
+                    f"tree {present_after!r} model {m_present(K.root)!r}")
     # repeating the call adds nothing
+    n_before = len(_walk_objs(cal))
     try:
         cal.add_missing_timezones(**kwargs)
     except Exception as e:
         res.violate(f"C18/add_missing_timezones/second-call-raised:{type(e).__name__}", stepno, repr(e)[:300])
         return
-    if len(cal.subcomponents) != len(subs_after):
-        extra = [str(x.get("TZID")) for x in cal.subcomponents[len(subs_after):]]
-        res.violate("C18/add_missing_timezones/not-idempotent", stepno, f"second call added {extra!r}")
-        del cal.subcomponents[len(subs_after):]
+    if len(_walk_objs(cal)) != n_before:
+        again = _resync(res, stepno + 50, K)
+        res.violate("C18/add_missing_timezones/not-idempotent", stepno, f"second call added {again!r}")
     res.observe(stepno, "amz", [sorted(app_ids), sorted(t for t in missing_before if not known[t])])
 
 
